@@ -11,6 +11,7 @@ opts (all optional):
   post_insert: list -> insert_absence_time_list(list) after the run; post_remove: remove_absence_time_list() after the run; reload: write/read JSON after the run and look at the loaded project;
   unit_time: passed to simulate(); backward: observe backward_simulate() instead (options due, rev);
   flags: (state, log) initialisation flags of the observed call on a never-simulated model; error_tol: passed to simulate();
+  presim_queries: after the earlier runs all read-only helpers (get_*_list, extract_*, chart/network data, print_*) are called once;
   resume_via_json: with resume_from, the stopped project is written to JSON, read into a new project and continued there.
 """
 import traceback
@@ -119,6 +120,41 @@ def make_observer(ex, phases=ALL_PHASES, want_canon=False, fault=None, extra=Non
     return obs
 
 
+def read_only_calls(project):
+    """every read-only helper of the public API with its default arguments (queries, extract_*, chart data, network data, printing):
+    none of them may change anything a later run can see.  Plot-drawing helpers (matplotlib / plotly figures) are left out."""
+    import contextlib
+    import io
+    import datetime as _dt
+
+    p = project
+    sink = io.StringIO()
+    init, unit = _dt.datetime(2021, 3, 1, 9, 0, 0), _dt.timedelta(minutes=1)
+    calls = []
+    org, wf, pr = p.organization, p.workflow, p.product
+    calls += [org.get_team_list, org.get_workplace_list, org.get_worker_list, org.get_facility_list, wf.get_task_list, pr.get_component_list]
+    for tm in org.team_list:
+        calls += [tm.get_worker_list, lambda tm=tm: tm.extract_free_worker_list([0]), lambda tm=tm: tm.extract_working_worker_list([0]),
+                  lambda tm=tm: tm.create_data_for_gantt_plotly(init, unit), lambda tm=tm: tm.create_data_for_cost_history_plotly(init, unit)]
+    for wp in org.workplace_list:
+        calls += [wp.get_facility_list, lambda wp=wp: wp.extract_free_facility_list([0]), lambda wp=wp: wp.extract_working_facility_list([0]),
+                  lambda wp=wp: wp.create_data_for_gantt_plotly(init, unit), lambda wp=wp: wp.create_data_for_cost_history_plotly(init, unit), wp.get_available_space_size]
+    calls += [lambda: wf.extract_working_task_list([0]), lambda: wf.extract_finished_task_list([0]), lambda: pr.extract_working_component_list([0]),
+              lambda: wf.create_data_for_gantt_plotly(init, unit), lambda: pr.create_data_for_gantt_plotly(init, unit), lambda: org.create_data_for_gantt_plotly(init, unit),
+              lambda: org.create_data_for_cost_history_plotly(init, unit), wf.get_networkx_graph, pr.get_networkx_graph, org.get_networkx_graph, p.get_networkx_graph,
+              lambda: p.print_log(0), p.print_all_log_in_chronological_order, wf.print_all_log_in_chronological_order, pr.print_all_log_in_chronological_order,
+              org.print_all_log_in_chronological_order, lambda: str(p), lambda: [str(x) for x in wf.task_list + pr.component_list + org.team_list + org.workplace_list]]
+    n = 0
+    with contextlib.redirect_stdout(sink):
+        for c in calls:
+            try:
+                c()
+                n += 1
+            except Exception:
+                pass  # a helper that cannot be called this way is not the subject here
+    return n
+
+
 def run(spec, opts=None, model=None, call=None):
     """Execute project.simulate(**opts) on a fresh model built from spec; never raises."""
     opts = opts or {}
@@ -150,7 +186,8 @@ def run(spec, opts=None, model=None, call=None):
                     ex.m.project.write_simple_json(path)
                     from pDESy.model.base_project import BaseProject
 
-                    p2 = BaseProject()
+                    # "same": the checkpoint is read back into the very project object that wrote it (a roll-back); otherwise into a new one
+                    p2 = ex.m.project if opts["resume_via_json"] == "same" else BaseProject()
                     p2.read_simple_json(path)
                     ex.m = S.adopt(p2)  # the run is continued in the loaded project
                 finally:
@@ -158,6 +195,9 @@ def run(spec, opts=None, model=None, call=None):
         for _ in range(int(opts.get("presim") or 0)):
             # earlier, unobserved runs on the same object (the observed run must not be influenced by them)
             ex.m.project.simulate(**sim_kwargs(dict(opts, absence=opts.get("presim_absence", []))))
+        if opts.get("presim_queries"):
+            # between the earlier run(s) and the observed one every read-only helper is called once with default arguments
+            read_only_calls(ex.m.project)
         if opts.get("edit"):
             from . import edits
 
